@@ -195,7 +195,11 @@ func genOpPlain(r *rand.Rand, m *model.Client, w opWeights, salt int) adapt.Op {
 					return adapt.Op{Kind: adapt.OpUpdateTable, Table: name, Defs: defs}
 				}
 				if r.Intn(2) == 0 {
-					for _, cand := range []adapt.IndexSpec{{Name: "gsi1", Hash: "g"}, {Name: "gsi2", Hash: "g", Range: "s"}, {Name: "gsi3", Hash: "s"}} {
+					// (gsi5 and gsi6 are TWINS of gsi1 and gsi2: the same key attributes under another name - two indexes
+					// that hold the same entries and share nothing)
+					cands := []adapt.IndexSpec{{Name: "gsi1", Hash: "g"}, {Name: "gsi2", Hash: "g", Range: "s"}, {Name: "gsi3", Hash: "s"}, {Name: "gsi5", Hash: "g"}, {Name: "gsi6", Hash: "g", Range: "s"}}
+					r.Shuffle(len(cands), func(i, j int) { cands[i], cands[j] = cands[j], cands[i] })
+					for _, cand := range cands {
 						if !have[cand.Name] {
 							c := cand
 							if r.Intn(4) == 0 {
